@@ -377,6 +377,9 @@ func (fr *Frame) segClose(lp *Loop) {
 		}
 	}
 	ctx.logs = map[*Cell][]emission{}
+	if os.Getenv("GOVC_WIREDEBUG") != "" {
+		fmt.Fprintf(os.Stderr, "SEGCLOSE %s ri=%v\n", site, ctx.ri)
+	}
 	if ctx.ri != nil {
 		exitedIdx[ctx.ri] = true
 	}
@@ -496,7 +499,19 @@ func (fr *Frame) wireNative(f *ssa.Function, args []Val, in ssa.Instruction) (Va
 			}
 		case "WriteTime":
 			if t, ok := fr.term(args[1]); ok {
-				ux := fr.ex.abstractApp("(time.Time).Unix", []*Term{t}).(TV).T
+				if tt := fr.ex.namedType("time", "Time"); tt != nil {
+					t = retype(t, tt)
+				}
+				var ux *Term
+				func() {
+					defer func() { recover() }()
+					ux = fr.ex.abstractApp("(time.Time).Unix", []*Term{t}).(TV).T
+				}()
+				if ux == nil {
+					fr.ex.oos("%s: WriteTime of a value that is not a time.Time term at %s", shortName(fr.fn.String()), fr.pos(in))
+					fr.emit(e, func(r *Term) *Term { return Fresh("unknown-stream", streamS) })
+					return TupleV{}, true
+				}
 				if fr.emit(e, func(r *Term) *Term { return MkCtor(stU64, wrapTo(ux, u64), r) }) {
 					return TupleV{}, true
 				}
@@ -600,6 +615,16 @@ func (fr *Frame) wireNative(f *ssa.Function, args []Val, in ssa.Instruction) (Va
 		}
 		fr.ex.oos("%s: unsupported Decoder operation %s at %s", shortName(fr.fn.String()), f.Name(), fr.pos(in))
 		return fr.freshResults(f.Signature.Results(), "dec"), true
+	}
+	// ---- flat mode (byte lengths, C19): helpers and nested codecs are executed, not boxed ----
+	if fr.ex.flatWire {
+		switch oname {
+		case typesPkg + ".EncodeSlice", typesPkg + ".EncodeSliceCast":
+			if fr.flatSlice(f, args, in, oname) {
+				return TupleV{}, true
+			}
+		}
+		return nil, false
 	}
 	// ---- generic helpers ----
 	switch oname {
